@@ -42,7 +42,7 @@ Reasons == {"<reason.plain>", "<reason.colon>", "<reason.long>"}
 
 \* Hostile client-chosen names (C17): sshd prints them verbatim (%.100s).
 Hostile == {"<evil.space>", "<evil.fromport>", "<evil.fromportssh>", "<evil.words>", "<evil.long>",
-            "<evil.trailfrom>", "<evil.quote>"}
+            "<evil.trailfrom>", "<evil.quote>", "<evil.preauth>", "<evil.dict>", "<evil.form>", "<evil.empty>"}
 
 A0 == "<acct.plain>"   K0 == "ED25519"   F0 == <<"SHA256", "<fp.b64>">>
 H0 == "<addr.v4>"      P0 == "<port.rand>"
@@ -269,7 +269,8 @@ Duplications(b) ==
     LET l == b.line IN
     {Mut("dup-tail", b, l \o SubSeq(l, i, Len(l))) : i \in Spaces(l)}
     \cup {Mut("dup-all", b, l \o " " \o l), Mut("dup-nl", b, l \o "\n" \o l), Mut("trail-sp", b, l \o " "),
-          Mut("trail-preauth", b, l \o " [preauth]"), Mut("trail-nl", b, l \o "\n")}
+          Mut("trail-preauth", b, l \o " [preauth]"), Mut("trail-nl", b, l \o "\n"),
+          Mut("trail-tab", b, l \o "\t"), Mut("trail-cr", b, l \o "\r"), Mut("trail-sp2", b, l \o "  ")}
 
 Splices(b, c) ==
     {Mut("splice", b, SubSeq(b.line, 1, i) \o SubSeq(c.line, j + 1, Len(c.line))) :
